@@ -21,6 +21,7 @@ type Ctx struct {
 	Tier  string
 	Repo  string
 	Verif string
+	Sub   bool // a sub-run whose obligations another property imports (does not import in turn)
 }
 
 // Registry maps property id -> check.
